@@ -36,7 +36,9 @@
 //!    transfer data (response counts of the accounting proof); a variant that
 //!    does not decode counts as rejected;
 //!  * a perturbed byte string that no longer decodes counts as rejected;
-//!  * panics are inconclusive.
+//!  * a panic on a path where the property promises a result (decryption inside the
+//!    table, a transfer not exceeding the balance, verification of honest data) is a
+//!    violation; a panic where rejection is expected is only counted.
 #![allow(deprecated)]
 use crate::common::*;
 use concordium_base::{
@@ -117,7 +119,9 @@ impl J<'_> {
         self.sh.hit(if expected { "accept.expected" } else { "reject.expected" });
         match got {
             Ok(b) => self.check(what, b == expected, || (format!("verification returned {} but the construction history says {}", b, expected), case())),
-            Err(m) => self.inconclusive(format!("{} panicked: {}", what, m)),
+            // the history promises acceptance: a panic is not an acceptance. No totality is demanded on rejections.
+            Err(m) if expected => self.check(what, false, || (format!("verification panicked ({}) but the construction history says accept", m), case())),
+            Err(_) => self.sh.hit("note.verifier_panic.on_expected_reject"),
         }
     }
 
@@ -172,7 +176,8 @@ fn dec(j: &mut J, what: &str, sk: &SecretKey<C>, e: &EncryptedAmount<C>) -> Opti
     match vmon_core::catch(|| decrypt_amount(&fixture().table, sk, e)) {
         Ok(a) => Some(a.micro_ccd()),
         Err(m) => {
-            j.inconclusive(format!("decrypt_amount panicked in {}: {}", what, m));
+            // every call decrypts chunk values inside the table's documented range
+            j.check("decrypt.panicked", false, || (format!("decrypt_amount panicked in {}: {}", what, m), json!({"secret_key": hex(&to_bytes(sk)), "encrypted": enc_json(e)})));
             None
         }
     }
@@ -308,7 +313,7 @@ fn case_aggregate_carry(j: &mut J, r: &mut Rng, cr: &mut CR, forced: Option<(u64
             j.sh.hit(if hi_sum & 1 == 1 { "aggregate.low_chunk_carry.high_odd" } else { "aggregate.low_chunk_carry.high_even" });
             j.check("aggregate.low_chunk_carry.decrypt", d == want, || (format!("decrypt(aggregate(E({:#x}), E({:#x}))) = {:#x}, expected {:#x} (low chunk sum {:#x} carries into the high chunk sum {:#x})", a, b, d, model, lo_sum, hi_sum), case()));
         }
-        Err(m) => j.inconclusive(format!("decrypt_amount panicked on a carrying aggregate: {}", m)),
+        Err(m) => j.check("aggregate.low_chunk_carry.decrypt", false, || (format!("decrypt_amount panicked on an aggregate whose chunk sums are inside the table: {}", m), case())),
     }
     vmon_core::fnv(&to_bytes(&agg))
 }
@@ -419,7 +424,7 @@ fn case_transfer(j: &mut J, r: &mut Rng, cr: &mut CR, nperturb: usize) -> u64 {
             return 0;
         }
         Err(m) => {
-            j.inconclusive(format!("make_transfer_data panicked: {}", m));
+            j.check("transfer.produced", false, || (format!("make_transfer_data panicked for an amount not exceeding the balance: {}", m), base.clone()));
             return 0;
         }
     };
@@ -451,7 +456,7 @@ fn case_transfer(j: &mut J, r: &mut Rng, cr: &mut CR, nperturb: usize) -> u64 {
         let over = if r.chance(1, 2) { b + 1 } else { b + 1 + r.below(u64::MAX - b) };
         match vmon_core::catch(|| make_transfer_data(&f.ctx, &pk_r, &sk_s, &input, Amount::from_micro_ccd(over), cr)) {
             Ok(x) => j.check("transfer.exceeding.none", x.is_none(), || (format!("a transfer of {} from a balance of {} was produced", over, b), base.clone())),
-            Err(m) => j.inconclusive(format!("make_transfer_data panicked: {}", m)),
+            Err(_) => j.sh.hit("note.prover_panic.on_exceeding_amount"),
         }
         // cheating: claim a larger plaintext than what is encrypted
         let lie = AggregatedDecryptedAmount { agg_encrypted_amount: before.clone(), agg_amount: Amount::from_micro_ccd(over), agg_index: index };
@@ -606,7 +611,7 @@ fn case_sec_to_pub(j: &mut J, r: &mut Rng, cr: &mut CR, nperturb: usize) -> u64 
             return 0;
         }
         Err(m) => {
-            j.inconclusive(format!("make_sec_to_pub_transfer_data panicked: {}", m));
+            j.check("sec_to_pub.produced", false, || (format!("make_sec_to_pub_transfer_data panicked for an amount not exceeding the balance: {}", m), base.clone()));
             return 0;
         }
     };
@@ -631,7 +636,7 @@ fn case_sec_to_pub(j: &mut J, r: &mut Rng, cr: &mut CR, nperturb: usize) -> u64 
         let over = if r.chance(1, 2) { b + 1 } else { b + 1 + r.below(u64::MAX - b) };
         match vmon_core::catch(|| make_sec_to_pub_transfer_data(&f.ctx, &sk, &input, Amount::from_micro_ccd(over), cr)) {
             Ok(x) => j.check("sec_to_pub.exceeding.none", x.is_none(), || (format!("a transfer of {} from a balance of {} was produced", over, b), base.clone())),
-            Err(m) => j.inconclusive(format!("make_sec_to_pub_transfer_data panicked: {}", m)),
+            Err(_) => j.sh.hit("note.prover_panic.on_exceeding_amount"),
         }
         let lie = AggregatedDecryptedAmount { agg_encrypted_amount: before.clone(), agg_amount: Amount::from_micro_ccd(over), agg_index: index };
         match vmon_core::catch(|| make_sec_to_pub_transfer_data(&f.ctx, &sk, &lie, Amount::from_micro_ccd(over), cr)) {
@@ -779,7 +784,7 @@ fn case_bsgs(j: &mut J, r: &mut Rng, cr: &mut CR, big: bool) -> u64 {
                 }
                 j.check("bsgs.discrete_log", got == want, || (format!("discrete_log(base^{}) = {} with a table of size {} ({})", v, got, m, name), json!({"base": hex(&to_bytes(&base)), "table_size": m, "value": v, "library": got})));
             }
-            Err(e) => j.inconclusive(format!("discrete_log panicked (m = {}, v = {}): {}", m, v, e)),
+            Err(e) => j.check("bsgs.discrete_log", false, || (format!("discrete_log(base^{}) panicked with a table of size {} ({}): {}", v, m, name, e), json!({"base": hex(&to_bytes(&base)), "table_size": m, "value": v}))),
         }
         h ^= v;
     }
@@ -792,7 +797,7 @@ fn case_bsgs(j: &mut J, r: &mut Rng, cr: &mut CR, big: bool) -> u64 {
         let (enc, _) = encrypt_amount(&f.ctx, &pk, Amount::from_micro_ccd(a), cr);
         match vmon_core::catch(|| decrypt_amount(&t2, &sk, &enc).micro_ccd()) {
             Ok(d) => j.check("bsgs.decrypt_amount", d == a, || (format!("decrypt(encrypt({})) = {} with a table of size {}", a, d, m2), json!({"amount": a, "table_size": m2, "secret_key": hex(&to_bytes(&sk)), "encrypted": enc_json(&enc)}))),
-            Err(e) => j.inconclusive(format!("decrypt_amount panicked with table size {}: {}", m2, e)),
+            Err(e) => j.check("bsgs.decrypt_amount", false, || (format!("decrypt(encrypt({})) panicked with a table of size {}: {}", a, m2, e), json!({"amount": a, "table_size": m2, "secret_key": hex(&to_bytes(&sk)), "encrypted": enc_json(&enc)}))),
         }
     }
     h
